@@ -913,7 +913,12 @@ class PersistentDict(collections.abc.MutableMapping):
 
     def reload(self):
         """Force a reload from disk, overwriting current cache"""
-        self._cache = dict(self._func.items())
+        # Update the cache dict in place: the finalizer registered in __init__
+        # holds a reference to this very dict, rebinding the attribute would
+        # make it write back a stale snapshot at garbage collection.
+        fresh = dict(self._func.items())
+        self._cache.clear()
+        self._cache.update(fresh)
 
 
 SEARCH_PATH = []
